@@ -378,7 +378,7 @@ func init() {
 		PID: "C13", PLevel: "exploration",
 		RuleText: "scenario = default engine, 1-2 sources x 1-2 destinations, the reconfigured processor attached to a source, the pipeline or a destination (with latencies/filters), 1-4 live reconfigure requests (UpdateWhileRunning + ReconfigureProcessor) fired when the event log reaches PRNG-chosen lengths: mid-stream, idle, racing a graceful stop; variants: the new processor cannot be opened, two concurrent requests, a request cancelled after 200 us. The fake processor stamps its configuration generation on every record and logs every call. Judged: each record is handed to the processor exactly once per run; generations along the call order never go back; a generation that could not be opened never processes a record and its request returns an error; after a request returned nil no older generation processes a record; no call before Open / after Teardown of its generation; ack order, destination order and ack justification (C04/C05/C01 oracles) hold on the same history; the guarded Update still refuses while the pipeline runs. Non-trivial: >=1 request and >=1 record judged; distinct = distinct (topology, request kinds, generations seen, successes).",
 		Assume:   []string{"arch-v2 has no in-place reconfigure path (ReconfigureProcessor returns an error there), so the property is only exercised on the default engine", "a request whose caller gave up (context cancelled) may still be applied by the node; that is recorded as an observation"},
-		Quick:    240, Thorough: 2400,
+		Quick:    240, Thorough: 2400, HangIsViol: true,
 		PointBias: []string{"lifecycle.start.checked", "lifecycle.start.before-run", "lifecycle.stop.checked"},
 		Anchors:   []string{"pkg/lifecycle/stream/processor.go", "pkg/lifecycle/reconfigure.go", "pkg/processor/service.go", "pkg/processor/runnable_processor.go"},
 		Gen:       gen, Judge: judge, Hooks: hooks,
